@@ -147,8 +147,14 @@ def run(R):
     g = f.cfg
     arrays = extract_arrays(f)
     with R.clause('D1', 'IDX', floor=18, desc='dispatch on the expect index agrees with the kind of the pattern at that index') as c:
-        c.need('session_regex_array' in arrays and 'session_init_regex_array' in arrays, 'login: pattern arrays not found')
-        A, B = arrays['session_regex_array'], arrays['session_init_regex_array']
+        used = [(n, k.args[0].id) for n, k in cfg_nodes_with_call(f, lambda k: callee_last(k) == 'expect' and k.args and isinstance(k.args[0], ast.Name)
+                                                                   and k.args[0].id in arrays)]
+        c.need(len(set(a for n, a in used)) == 2, 'login: expected the dialogue to wait on two pattern arrays, found %s' % sorted(set(a for n, a in used)))
+        first = [a for n, a in used if all(g.dominated_by(m, {n})[0] for m, _ in used)]
+        c.need(len(first) == 1, 'login: the first wait (dominating all later ones) was not identified')
+        Bn = first[0]
+        An = [a for n, a in used if a != Bn][0]
+        A, B = arrays[An], arrays[Bn]
         ka, kb = [classify_entry(e) for e in A], [classify_entry(e) for e in B]
         R.extra['session_regex_array'] = ka
         R.extra['session_init_regex_array'] = kb
@@ -232,14 +238,31 @@ def run(R):
         gt = tp.cfg
         loops = [n for n in iter_nodes(tp.node) if isinstance(n, ast.While)]
         c.need(len(loops) == 1, 'try_read_prompt: loop not found')
-        c.check(norm(loops[0].test) == 'expired < total_timeout', tp, loops[0], 'the read loop is bounded by the total timeout', witness=norm(loops[0].test), kind='ast', tag='loop-bound')
-        upd = [s for s in ast.walk(loops[0]) if isinstance(s, ast.Assign) and 'expired' in assigned_names(s)]
-        c.check(len(upd) == 1 and norm(upd[0].value) == 'time.time() - begin', tp, upd[0] if upd else loops[0], 'elapsed time is recomputed after every character', kind='ast', tag='loop-progress')
+        lt = compare_parts(loops[0].test)
+        okb = lt is not None and isinstance(lt[1], ast.Lt) and isinstance(lt[0], ast.Name) and isinstance(lt[2], ast.Name)
+        ev_, tv_ = (lt[0].id, lt[2].id) if okb else (None, None)
+        if okb:
+            td = [s2 for s2 in iter_nodes(tp.node) if isinstance(s2, ast.Assign) and tv_ in assigned_names(s2)]
+            okb = len(td) == 1 and any(isinstance(x, ast.Name) and x.id == tp.params[1] for x in ast.walk(td[0].value)) and \
+                not any(p is loops[0] for p in parent_chain(td[0]))
+        c.check(bool(okb), tp, loops[0], 'the read loop runs while <elapsed> < <total timeout derived from the multiplier, fixed before the loop>',
+                witness=norm(loops[0].test), kind='ast', tag='loop-bound')
+        upd = [s2 for s2 in ast.walk(loops[0]) if isinstance(s2, ast.Assign) and ev_ in assigned_names(s2)]
+        oku = len(upd) == 1 and isinstance(upd[0].value, ast.BinOp) and isinstance(upd[0].value.op, ast.Sub) and norm(upd[0].value.left) == 'time.time()' \
+            and isinstance(upd[0].value.right, ast.Name)
+        if oku:
+            bd = [s2 for s2 in iter_nodes(tp.node) if isinstance(s2, ast.Assign) and upd[0].value.right.id in assigned_names(s2)]
+            oku = len(bd) == 1 and norm(bd[0].value) == 'time.time()' and not any(p is loops[0] for p in parent_chain(bd[0]))
+        c.check(bool(oku), tp, upd[0] if upd else loops[0], 'elapsed time is recomputed after every character as time.time() - <start taken once before the loop>', kind='ast', tag='loop-progress')
         hs = [h for h in ast.walk(loops[0]) if isinstance(h, ast.ExceptHandler)]
         c.check(len(hs) == 1 and norm(hs[0].type) == 'TIMEOUT' and any(isinstance(s, ast.Break) for s in hs[0].body), tp, hs[0] if hs else loops[0],
                 'silence (TIMEOUT on one character) ends the loop', kind='ast', tag='loop-timeout')
         rk = [k for k in calls_in(loops[0]) if callee_last(k) == 'read_nonblocking']
-        ok = len(rk) == 1 and any(kw.arg == 'timeout' and is_name(kw.value, 'timeout') for kw in rk[0].keywords)
+        ok = len(rk) == 1 and any(kw.arg == 'timeout' and isinstance(kw.value, ast.Name) and not is_const(kw.value, None) for kw in rk[0].keywords)
+        if ok:
+            tvn = [kw.value.id for kw in rk[0].keywords if kw.arg == 'timeout'][0]
+            tds = [s2 for s2 in iter_nodes(tp.node) if isinstance(s2, ast.Assign) and tvn in assigned_names(s2)]
+            ok = bool(tds) and all(not is_const(s2.value, None) for s2 in tds)
         c.check(ok, tp, rk[0] if rk else loops[0], 'each character read has its own finite timeout', kind='ast', tag='char-timeout')
     with R.clause('D5', 'TAB', floor=6, desc='UNIQUE_PROMPT matches what the shells display, not the echoed set-commands') as c:
         check_prompt_table(c, repo)
